@@ -359,11 +359,9 @@ def run_case(handle: ServerHandle, scripts: list[list[list[Any]]], rng: Any, tag
     try:
         while any(p != "done" for p in phase):
             live = [i for i in range(n) if phase[i] != "done"]
-            if fixed is not None:
-                if not fixed:
-                    break
+            if fixed:
                 i = fixed.pop(0)
-                if phase[i] == "done":
+                if i >= n or phase[i] == "done":
                     continue
             else:
                 movable = [i for i in live if phase[i] != "queued"]
